@@ -365,9 +365,9 @@ HARNESSES = [
     Harness("H01u", h01u, quick=dict(K=4), thorough=dict(K=5), pattern="P3 bounded history (default controls, real simulated execution)",
             requires=["accepted", "refused", "trade-reused", "re-priced"], outside=OUT),
     Harness("H01b", h01b, pattern="P2 inductive step", requires=["event", "sp"], outside=OUT),
-    Harness("H01r-S", h01r, quick=dict(n=1, mode="S"), thorough=dict(n=2, mode="S"), pattern="P2 inductive step", requires=["accepted", "refused"],
+    Harness("H01r-S", h01r, quick=dict(n=1, mode="S"), thorough=dict(n=1, mode="S"), pattern="P2 inductive step", requires=["accepted", "refused"],
             wall_s=(300, 3000), max_paths=(150000, 5000000), outside=OUT),
-    Harness("H01r-P", h01r, quick=dict(n=1, mode="P"), thorough=dict(n=2, mode="P"), pattern="P2 inductive step", requires=["accepted"],
+    Harness("H01r-P", h01r, quick=dict(n=1, mode="P"), thorough=dict(n=1, mode="P"), pattern="P2 inductive step", requires=["accepted"],
             wall_s=(300, 3000), max_paths=(150000, 5000000), outside=OUT),
 ]
 META = {"assumptions": ["Inv(pre): the position is within the configured limits before the request (P2 induction hypothesis)",
